@@ -7,8 +7,14 @@ package main
 
 import (
 	"fmt"
+	"os"
+	"path/filepath"
 
+	"github.com/ysugimoto/falco/v2/resolver"
 	"github.com/ysugimoto/falco/v2/snippet"
+
+	"verif/harness/fw"
+	"verif/harness/lintutil"
 )
 
 func buildSnippets(lc lcase) *snippet.Snippets {
@@ -75,4 +81,70 @@ func snippetCases() []lcase {
 		lcase{Main: incMains["at-root"], Reps: 4, Shape: "include/at-root/self-top", IncSnip: map[string]string{"root": "include \"snippet::root\";\nsub from_root {\n  set req.http.R = \"1\";\n}\n"}},
 	)
 	return out
+}
+
+// fileResolverCase lints a small service from the file system through resolver.NewFileResolvers,
+// the way `falco lint -I lib app/main.vcl` does: a module of the same name exists next to the main
+// file and in the include path. Which one is taken must be the same on every run.
+func runFileResolver(oc *fw.Outcome, reps int) {
+	base := filepath.Join(fw.Verif, ".build", "tmp")
+	os.MkdirAll(base, 0o755)
+	dir, err := os.MkdirTemp(base, "c11fs-")
+	if err != nil {
+		oc.Inconc = append(oc.Inconc, "workspace: "+err.Error())
+		return
+	}
+	defer os.RemoveAll(dir)
+	files := map[string]string{
+		"app/main.vcl":        "include \"helpers\";\ninclude \"only_in_lib\";\ninclude \"only_in_app\";\nsub vcl_recv {\n#FASTLY RECV\n  call helper;\n  call lib_only;\n  call app_only;\n  return(lookup);\n}\n",
+		"app/helpers.vcl":     "sub helper {\n  set req.http.X-App = undefined_variable_in_app;\n}\n",
+		"lib/helpers.vcl":     "sub helper {\n  set req.http.X-Lib = \"1\";\n}\n",
+		"lib2/helpers.vcl":    "sub helper {\n  set req.http.X-Lib2 = std.itoa(1, 2, 3);\n}\n",
+		"lib/only_in_lib.vcl": "sub lib_only {\n  set req.http.L = \"1\";\n}\n",
+		"app/only_in_app.vcl": "sub app_only {\n  set req.http.A = \"1\";\n}\n",
+	}
+	for n, t := range files {
+		p := filepath.Join(dir, n)
+		os.MkdirAll(filepath.Dir(p), 0o755)
+		os.WriteFile(p, []byte(t), 0o644)
+	}
+	mainPath := filepath.Join(dir, "app", "main.vcl")
+	src := files["app/main.vcl"]
+	for _, ips := range [][]string{{"lib"}, {"lib", "lib2"}, {"lib2", "lib"}, {"lib", "lib"}, {}} {
+		var abs []string
+		for _, p := range ips {
+			abs = append(abs, filepath.Join(dir, p))
+		}
+		var first []string
+		for k := 0; k < reps; k++ {
+			oc.Evals++
+			var cur []string
+			pn, msg, st := fw.Guard(func() {
+				rs, err := resolver.NewFileResolvers(mainPath, abs)
+				if err != nil || len(rs) == 0 {
+					cur = []string{"resolver error: " + fmt.Sprint(err)}
+					return
+				}
+				res := lintutil.Lint(src, rs[0])
+				for _, d := range res.Diags {
+					cur = append(cur, d.NoPos()+"@"+filepath.Base(filepath.Dir(d.File))+"/"+filepath.Base(d.File))
+				}
+			})
+			if pn {
+				oc.Violate(fw.PanicKey(st)+"/file-resolver", "the linter panicked with the file resolver: "+msg, map[string]any{"include_paths": ips})
+				return
+			}
+			if k == 0 {
+				first = cur
+				continue
+			}
+			if lintutil.Multiset(cur) != lintutil.Multiset(first) {
+				oc.Violate("nondet:file-resolver", fmt.Sprintf("two lint runs of the same files with include paths %v report different diagnostics: %s", ips, clip(lintutil.DiffMultiset(first, cur)+lintutil.DiffMultiset(cur, first), 200)),
+					map[string]any{"files": files, "include_paths": ips, "run1": first, fmt.Sprintf("run%d", k+1): cur})
+				return
+			}
+		}
+		oc.Tag(fmt.Sprintf("file-resolver:include-paths=%d", len(ips)))
+		oc.NonTrivialS(fmt.Sprint("file-resolver", ips))
+	}
 }
